@@ -5,8 +5,6 @@ import (
 	"errors"
 	"fmt"
 	"math"
-	"os"
-	"path/filepath"
 	"strings"
 	"time"
 
@@ -85,6 +83,7 @@ func fuzzOne(r *Rng) (kind string, input []byte, verdict string) {
 	switch c := r.Intn(100); {
 	case c < 15: // random bytes as a template
 		input, kind = rbytes(256), "bytes-template"
+		noteInput("fuzz " + hex.EncodeToString(input))
 		m := html.NewTplManager()
 		if err := m.Add("f", strings.NewReader(string(input))); err == nil {
 			if t, e := m.GetTemplate("f"); e == nil {
@@ -93,10 +92,12 @@ func fuzzOne(r *Rng) (kind string, input []byte, verdict string) {
 		}
 	case c < 25: // random bytes to the scanners
 		input, kind = rbytes(256), "bytes-scanner"
+		noteInput("fuzz " + hex.EncodeToString(input))
 		html.NewHtmlScanner(strings.NewReader(string(input))).GetAllTokens()
 		html.NewCodeScanner(html.Pos{Line: 1, Column: 1}, string(input)).GetAllTokens()
 	case c < 40: // random bytes as an expression
 		input, kind = rbytes(64), "bytes-expr"
+		noteInput("fuzz " + hex.EncodeToString(input))
 		if tree, err := exp.ParseCode(string(input)); err == nil {
 			exp.Evaluate(exp.NewPos(1, 1), tree, exp.NewScope(hostileData(r)))
 		}
@@ -110,6 +111,7 @@ func fuzzOne(r *Rng) (kind string, input []byte, verdict string) {
 			src = mutate(r, src)
 		}
 		input, kind = []byte(src), "hostile-expr"
+		noteInput("fuzz " + hex.EncodeToString(input))
 		if tree, err := exp.ParseCode(src); err == nil {
 			exp.Evaluate(exp.NewPos(1, 1), tree, exp.NewScope(hostileData(r)))
 			exp.Evaluate(exp.NewPos(1, 1), tree, exp.Combine(exp.NewScope(nil), exp.NewScope(hostileData(r))))
@@ -140,6 +142,7 @@ func fuzzOne(r *Rng) (kind string, input []byte, verdict string) {
 			sb.WriteString(f[0] + "\x00" + f[1] + "\x01")
 		}
 		input, kind = []byte(sb.String()), "template-set"
+		noteInput("fuzz " + hex.EncodeToString(input))
 		m, le := newManager(cfg, ts.Files)
 		if strings.HasPrefix(le, "PANIC") {
 			return kind, input, le
@@ -161,12 +164,8 @@ func fuzzOne(r *Rng) (kind string, input []byte, verdict string) {
 
 func runFuzz(seed uint64, n int, dir string) {
 	out := openOut(dir)
-	prog := filepath.Join(dir, "progress.txt")
 	for i := 0; i < n; i++ {
 		r := NewRng(seed, uint64(i))
-		if i%50 == 0 {
-			os.WriteFile(prog, []byte(fmt.Sprintf("%d", i)), 0o644)
-		}
 		kind, input, v := fuzzOne(r)
 		out.count(kind)
 		res := "OK " + kind
@@ -175,6 +174,5 @@ func runFuzz(seed uint64, n int, dir string) {
 		}
 		out.put("fuzz "+hex.EncodeToString(input), res, verdict("C08", v))
 	}
-	os.WriteFile(prog, []byte("done"), 0o644)
 	out.close()
 }
